@@ -38,6 +38,18 @@ func extractRateLimiter() {
 	ws := src(w)
 	s.boolean("waitShape", w != nil && strings.Contains(ws, "tb.mu.Lock() tb.refill() if tb.tokens >= 1 { tb.tokens-- tb.mu.Unlock() return } tb.mu.Unlock()"))
 	c, okc := findCmp(w, "tb.tokens", "1")
+	if !okc {
+		// the attempt may live in a helper method of the bucket that Wait() calls
+		if f := load(rl); f != nil {
+			for _, d := range f.Decls {
+				if fd, ok := d.(*ast.FuncDecl); ok && fd.Recv != nil && w != nil && strings.Contains(src(w), "."+fd.Name.Name+"()") {
+					if c2, ok2 := findCmp(fd, "tb.tokens", "1"); ok2 {
+						c, okc = c2, true
+					}
+				}
+			}
+		}
+	}
 	s.op("acquireOp", c, okc)
 	nb := fn(rl, "newTokenBucket")
 	nbs := src(nb)
